@@ -22,6 +22,9 @@ def enc(v):
         return ["t", [enc(x) for x in v]]
     if isinstance(v, list):
         return ["l", [enc(x) for x in v]]
+    if isinstance(v, dict) and all(isinstance(k, int) and not isinstance(k, bool) for k in v):
+        # a frequency table: pairs (value, count) sorted by value
+        return ["t", [["t", [enc(k), enc(v[k])]] for k in sorted(v)]]
     return ["?", repr(v)[:40]]
 
 
@@ -247,13 +250,13 @@ def build(prog, ntags=0, stream_kwargs=None, sink_factory=None):
             s = U[0].filter(_uf(PREDS[nd["f"]]))
         elif k == "accumulate":
             kw = {}
-            if nd["lits"]:
+            if nd["lits"] and nd["f"] != "freq":
                 kw["start"] = dec(nd["lits"][0])
             if nd["b1"]:
                 kw["returns_state"] = True
             if nd["b2"]:
                 kw["with_state"] = True
-            s = U[0].accumulate(_uf(BINS[nd["f"]]), **kw)
+            s = U[0].frequencies() if nd["f"] == "freq" else U[0].accumulate(_uf(BINS[nd["f"]]), **kw)
         elif k == "slice":
             s = U[0].slice(nd["n"], None if nd["m"] == -1 else nd["m"], nd["k"])
         elif k == "partition":
